@@ -49,7 +49,10 @@ func (bufs Buffers) ReadFrom(r io.Reader) (int64, error) {
 				// filled, the next Read reports the end again.
 				continue
 			}
-			if (n == 0 && err == nil) || err == io.EOF {
+			// A Read that returns (0, nil) says that nothing happened, not
+			// that the stream has ended (io.Reader): try again, as
+			// io.ReadFull does.
+			if err == io.EOF {
 				return total, io.EOF
 			} else if err != nil {
 				return total, err
